@@ -434,6 +434,13 @@ def generate(tier):
     bad('unit-variant', 'Deref|only-unit', K.render(X('enum', [('u', 0)]), K.Config('', ['Deref'])))
     bad('unit-variant', 'Into|empty-enum', K.render(X('enum', []), K.Config('', ['Into(u8)'])))
     bad('unit-variant', 'Deref|empty-enum', K.render(X('enum', []), K.Config('', ['Deref'])))
+    # candidates that equal the target only up to the lifetime of a reference are candidates all the same (`&str`, `&'a str`, `&'static str`)
+    for tgt in ("&'static str", '&str'):
+        for fa, fb in (("&'static str", "&'a str"), ("&'a str", "&'static str"), ("&'a str", "&'b str")):
+            bad('designation', "Into|lifetimes|%s|%s,%s" % (tgt, fa, fb), "#[derive(Educe)]\n#[educe(Into(%s))]\nstruct Ty<'a, 'b> { x: %s, n: u8, y: %s, z: &'b u8 }\n" % (tgt, fa, fb),
+                "#[derive(Educe)]\n#[educe(Into(%s))]\nstruct Ty<'a, 'b> { x: %s, n: u8, y: &'a u8, z: &'b u8 }\n" % (tgt, fa))
+            bad('designation', "Into|lifetimes-enum|%s|%s,%s" % (tgt, fa, fb), "#[derive(Educe)]\n#[educe(Into(%s))]\nenum Ty<'a, 'b> { A(%s, %s, &'b u8), B { k: &'static str } }\n" % (tgt, fa, fb),
+                "#[derive(Educe)]\n#[educe(Into(%s))]\nenum Ty<'a, 'b> { A(%s, &'a u8, &'b u8), B { k: &'static str } }\n" % (tgt, fa))
     # 9. Debug asked to print a nameless empty shape ---------------------------------------------------------------
     for off in ('Debug(name = false)', 'Debug(name(false))', 'Debug(name = "")'):
         for sh, sk in ((X('struct', [('u', 0)]), 'unit'), (X('struct', [('t', 0)]), 'tuple0'), (X('struct', [('n', 0)]), 'named0')):
@@ -506,7 +513,8 @@ def check(v, tier):
     v.notes['twins_refused'] = bad_twins[:10]
     for c in cases[::max(1, len(cases) // 8)][:8]:
         v.sample({'key': c.key, 'input': c.body})
-    guard(not bad_twins, 'grammar guard: %d valid twins are refused, e.g. %s' % (len(bad_twins), bad_twins[:3]))
+    # a refused twin alone means the request space is mis-modelled (a machinery problem); next to genuine violations it is reported with them
+    guard(not bad_twins or v.violations, 'grammar guard: %d valid twins are refused, e.g. %s' % (len(bad_twins), bad_twins[:3]))
     guard(all(cls in stems for cls in v.notes['classes']), 'a class produced no educe diagnostic at all')
     return v.finish('one offending construct on top of an otherwise valid request, for every class of the statement: trait twice (same list / separate attributes / all pairs of '
                     'spellings; on fields incl. Eq+PartialEq and Ord+PartialOrd carriers), parameter twice (alias pairs, both orders, type / variant / field level), rank twice (explicit-explicit in '
